@@ -14,6 +14,10 @@ OBLIG_FILES = ["Oblig/C04Obl.v", "Oblig/C03Obl.v", "Model/TamperFacts.v", "Model
                "Oblig/C04Utf8Obl.v", "Model/Utf8Prefix.v", "Model/TruncUtf8Facts.v"]
 if os.path.exists(os.path.join(C.COQ, "Oblig", "C01ValidObl.v")):
     OBLIG_FILES.append("Oblig/C01ValidObl.v")
+# phase 6: the text-level theorems transferred to the validating reader (Codec/ReaderSkel*.v)
+if os.path.exists(os.path.join(C.COQ, "Props", "C04ValidText.v")):
+    PROP_FILES.append("Props/C04ValidText.v")
+    OBLIG_FILES += ["Oblig/C04ValidTextObl.v", "Codec/ReaderSkelFacts.v", "Model/TamperValidFacts.v"]
 
 # perturbation kinds of harness/internal/arith/perturb.go that change exactly one protected field
 PROTECTED_KINDS = "0,1,2,3,4,5,6,8,9,10,12,13,20,21,22,23,24"
@@ -178,6 +182,60 @@ def utf8_correspondence(ctx):
         pass
 
 
+def valid_text_correspondence(ctx):
+    """Props/C04ValidText.v: the extracted model of Reader.Read WITH its validation followed by
+    File.Validate() (Codec/ReaderSkel.v accept_code = read_text_valid + validate_file over the regenerated
+    layouts, record rules and arithmetic tables) against the real code on the same bytes: generated valid
+    files of every kind (21 SEC codes, IAT, IAT corrections, ADV, mixed), the first digit and random digits
+    of every protected field of every protected line replaced, characters outside the protected columns,
+    truncations around the file control record.  Both sides print "A" or "R".  A tampered text the
+    implementation accepts is reported as a violation of the property itself."""
+    ok, out = C.build_ocaml("c04valid")
+    ctx.log("ocaml c04valid", out[-3000:])
+    if not ok:
+        ctx.diag.append("extracted validating-reader model does not build: " + out[-600:])
+        return
+    d = os.path.join(ctx.rundir, "corrvalid")
+    os.makedirs(d, exist_ok=True)
+    rc, out = C.sh([os.path.join(C.BIN, "c04valid"), "corr", "-out", d, "-files", str(ctx.scale(26, 130)),
+                    "-iatcor", str(ctx.scale(8, 40)), "-samples", str(ctx.scale(3, 5)), "-stride", str(ctx.scale(19, 5))], timeout=3000)
+    ctx.log("corr valid text", out[-2500:])
+    drv = os.path.join(C.BUILD, "ocaml", "c04valid", "driver")
+    if rc != 0 or not os.path.exists(drv):
+        ctx.diag.append("validating-reader text correspondence could not run: " + out[-300:])
+        return
+    mp, ip, cp = os.path.join(d, "model.txt"), os.path.join(d, "impl.txt"), os.path.join(d, "cases.txt")
+    rc2, out2 = C.sh("%s %s > %s" % (drv, cp, mp), timeout=3000)
+    if rc2 != 0:
+        ctx.diag.append("extracted validating-reader model crashed: " + out2[-300:])
+    label = "validating reader model (Read+Validate) vs ach.NewReader.Read + File.Validate on tampered texts"
+    ctx.compare(label, mp, ip, cp)
+    try:
+        impl = open(ip).read().splitlines()
+        desc = open(os.path.join(d, "desc.txt")).read().splitlines()
+        cases = open(cp).read().splitlines()
+        tampers = accepted = 0
+        for k in range(min(len(impl), len(desc))):
+            if ": tamper" in desc[k]:
+                tampers += 1
+                if impl[k] == "A":
+                    accepted += 1
+                    fld = desc[k].split(": tamper", 1)[1].split(" ")[1]
+                    ctx.fails.append({"kind": "fail", "key": "tamper-valid-reader:" + fld,
+                                      "what": "Read + Validate accept a text with one digit of a protected column replaced: " + desc[k],
+                                      "input": {"mode": "validtext", "description": desc[k], "text_hex": cases[k][2:]}})
+        ctx.cov["correspondence"][label]["tampered_texts"] = tampers
+        ctx.cov["correspondence"][label]["tampered_texts_accepted_by_impl"] = accepted
+        dist = {}
+        for line in out.splitlines():
+            if ": " in line:
+                k, v = line.rsplit(": ", 1)
+                dist[k] = int(v)
+        ctx.cov["correspondence"][label]["distribution"] = dist
+    except (OSError, KeyError, IndexError, ValueError):
+        pass
+
+
 def run(ctx):
     ctx.search = search
     ctx.trusted += ["tables emitter translator/tables.go and verif hook verif_export_c03.go (shared with C03)",
@@ -193,6 +251,8 @@ def run(ctx):
     memory_tamper(ctx)
     text_correspondence(ctx)
     utf8_correspondence(ctx)
+    if os.path.exists(os.path.join(C.COQ, "Extract", "C04VALID.v")):
+        valid_text_correspondence(ctx)
     summ = oracle(ctx, ctx.scale(52, 520), ctx.scale(3, 40))
     ctx.add_summary(summ, "text tamper / truncation oracle")
     if summ:
@@ -215,6 +275,10 @@ def replay(path):
     if inp.get("mode") == "utf8":
         print(inp.get("description"))
         rc, out = C.sh([os.path.join(C.BIN, "c04x"), "replay", path], timeout=600)
+        print(out)
+        return 1 if rc != 0 else 0
+    if inp.get("mode") == "validtext":
+        rc, out = C.sh([os.path.join(C.BIN, "c04valid"), "replay", path], timeout=600)
         print(out)
         return 1 if rc != 0 else 0
     if inp.get("mode") == "memory":
